@@ -21,6 +21,8 @@ import (
 //	call   {f a1 a2 ...}  (>= 1 argument)
 //	lit    literal argument of a call (runes other than \ " { })
 //	qt     quoted template argument: "text {stmt} text" (parts: lit | match | key | call, no quotes inside)
+//	cat    unquoted argument made of adjacent pieces: pre{0}post, {0}{1}, {0}-{p2 b} (parts: bare lit | match | key | call,
+//	       at least one statement; arguments are split on unquoted, unbraced whitespace only, so this is ONE argument)
 //	empty  {} / { } ...   (malformed: T holds the blanks)
 //
 // NoClose drops the closing brace of a statement (malformed), Unknown marks a
@@ -154,6 +156,7 @@ type printer struct {
 	ctrlEsc      int    // \n \t \r written as escapes inside quoted literal arguments
 	ctrlEscDepth [8]int // the same by call depth
 	calls        int
+	cats         int // unquoted arguments made of adjacent pieces
 	stmts        int
 	maxDepth     int
 	bad          string // generator bug (inadmissible tree): never judged
@@ -307,6 +310,23 @@ func (p *printer) arg(n *Node, depth int, inQ bool) {
 		} else {
 			p.sb.WriteString(n.T)
 		}
+	case "cat":
+		stm := 0
+		for i, part := range n.A {
+			if part.K == "lit" {
+				if part.T == "" || mustQuote(part.T) || hasSpecial(part.T) || (i > 0 && n.A[i-1].K == "lit") {
+					p.bad = "piece of an unquoted argument that is not a bare word"
+				}
+				p.sb.WriteString(part.T)
+			} else {
+				stm++
+				p.stmt(part, depth+1, inQ)
+			}
+		}
+		if stm == 0 || len(n.A) < 2 {
+			p.bad = "cat without a statement or with a single piece"
+		}
+		p.cats++
 	case "qt":
 		if inQ {
 			p.bad = "quoted template inside a quoted template"
@@ -393,7 +413,7 @@ func refEval(n *Node, lk lookups) string {
 			vs[i] = refEval(a, lk)
 		}
 		return probeString(n.T, vs)
-	case "qt":
+	case "qt", "cat":
 		var sb strings.Builder
 		for _, a := range n.A {
 			sb.WriteString(refEval(a, lk))
@@ -444,7 +464,7 @@ func requiredErrors(items []*Node) []string {
 			for _, a := range n.A {
 				walk(a)
 			}
-		case "qt":
+		case "qt", "cat":
 			for _, a := range n.A {
 				walk(a)
 			}
